@@ -415,6 +415,14 @@ def mutation_rules(chk, hs):
                                     "q.zero_() (or fill_(0), clamp_(0, 0), masked_fill_ of every element) leaves a null scale; q.copy_(x) / q[i] = x then quantize x with it: zeros instead of x (each step alone is within tolerance)")
                         else:
                             chk.unknown("C05.R18", qsite, what)
+                        # a scale that may come out SMALLER than the destination's (a selection between the old scale and a fitted one) is the scale of the
+                        # whole base when the destination is a view of a part of it: the helper has to tell such destinations apart
+                        may_shrink = isinstance(sc, ast.Call) and U(sc.func).split(".")[-1] == "where" and any(U(x) == dscale for x in ast.walk(sc))
+                        if may_shrink:
+                            n += 1
+                            tells_views = any(isinstance(x, ast.Attribute) and x.attr in ("untyped_storage", "storage_offset", "_base", "is_view", "_is_view", "data_ptr") for x in ast.walk(qfn))
+                            chk.require("C05.R18", qsite, tells_views, f"{qfn.name}: the scale can be reduced (`{U(sc)[:50]}`) and destinations that are views of a part of another tensor are told apart: {tells_views}", hname, "shared scale of a partial view reduced",
+                                        "q[0].fill_(0.1), q[0] /= 1.5, q.fill_diagonal_(0.5) on a per-tensor tensor: the other rows of q are read under the reduced scale (off by 2.2 for a step of 0.018)")
                     continue
                 wb = writeback_fallback(repo, U(p_.end[1].func))
                 # (g) the scale a written-back destination ends up with is bounded below by the one it had: `absmax(result) / qmax` alone is null for a null
